@@ -57,7 +57,9 @@ def replay_file(binary, path, repo, trace=False, timeout=900):
             m = re.search(r'api=(\S+) call#(\d+) steps=(\d+)', line)
             if m:
                 res['api'] = m.group(1)
-                res['hash'] = 'death ' + m.group(0)
+                # the step at which a sanitizer aborts may depend on the environment (a stack overflow depends on the stack limit):
+                # the gate compares the API call, not the step
+                res['hash'] = 'death api=%s call#%s' % (m.group(1), m.group(2))
         elif line.startswith('FATAL budget '):
             m = re.search(r'api=(\S+) call#(\d+) steps=(\d+)', line)
             res['api'] = m.group(1) if m else ''
